@@ -11,7 +11,7 @@ rm -rf $R/verif/replay_out
 start=$(date +%s)
 $R/run "$ID" --tier "$TIER" > $R/last.log 2>&1; code=$?
 end=$(date +%s)
-grep -E "^VIOLATION|^KNOWN-FINDING|BUILD FAILED|^\[C[0-9]+\] [0-9]+ evaluations" $R/last.log | cut -c1-200 | head -8
-grep -E "^violation in stage" $R/last.log | cut -c1-400 | head -3
+grep -aE "^VIOLATION|^KNOWN-FINDING|BUILD FAILED|^\[C[0-9]+\] [0-9]+ evaluations" $R/last.log | cut -c1-200 | head -8
+grep -aE "^violation in stage" $R/last.log | cut -c1-400 | head -3
 echo "RESULT id=$ID exit=$code secs=$((end-start)) patch=$PATCH"
 git -C $R/repo checkout -q -- . && git -C $R/repo clean -fdq -e target
